@@ -430,7 +430,13 @@ def check(ctx):
         gtests = guard_of(prog, rec, gcall)
         counter = "self.Xn"
         incs = [s_ for t, v, s_, k in iter_stores(rec.node) if canon(t) == counter and k == "aug" and const_num(v) == 1 and isinstance(s_.op, ast.Add)]
-        test_node = cfg.node_of(gtests[-1][0]) if gtests else None
+        # the capacity test among the guards of the growth call (guard clauses add complements of early returns to them)
+        cap_test = None
+        for test_, pol_ in gtests:
+            nf_ = int_le_form(test_, neg=not pol_)
+            if nf_ is not None and any((".shape[0]" in k_ or k_.startswith("len(")) for k_ in dict(nf_[1][0])) and counter in dict(nf_[1][0]):
+                cap_test = test_
+        test_node = cfg.node_of(cap_test if cap_test is not None else gtests[-1][0]) if gtests else None
         inc_node = cfg.node_of(incs[0]) if len(incs) == 1 else None
         before_inc = bool(test_node is not None and inc_node is not None and cfg.dominates(test_node.id, inc_node.id))
         filled = "(1 + self.Xn)" if before_inc else "self.Xn"
@@ -635,7 +641,9 @@ def check(ctx):
         for t, v, s, k in iter_stores(fin.node):
             a = self_attr_of(t)
             if a in arrays and isinstance(v, ast.Subscript) and self_attr_of(v.value) == a and isinstance(v.slice, ast.Slice):
-                ups[a] = (canon(v.slice.lower) if v.slice.lower else "0", canon(v.slice.upper), s)
+                from .common import deref_canon as _dcn
+
+                ups[a] = (canon(v.slice.lower) if v.slice.lower else "0", _dcn(prog, fin, v.slice.upper), s)  # n = self.Xn + 1 in a local
             elif a in arrays:
                 ctx.fail(fin, s, f"finalize re-binds {a} to something other than a prefix of itself", construct=f"finalize {a} <- {canon(v)[:40]}")
         bounds = {(lo, up) for lo, up, _s in ups.values()}
